@@ -99,7 +99,7 @@ Edit == /\ phase = "edit" /\ Len(hist) < EditDepth
              /\ Interesting([doc |-> cur, out |-> "ok"], e)
              /\ cur' = n.doc
              /\ hist' = Append(hist, [op |-> e.op, dot |-> Write(e.segs, "."), sl |-> Write(e.segs, "/"), t |-> e.t, v |-> e.v, out |-> n.out,
-                                      adot |-> Write(e.asegs, "."), name |-> e.name])
+                                      adot |-> Write(e.asegs, "."), name |-> e.name, grew |-> Len(n.doc) > Len(cur)])
         /\ UNCHANGED <<doc, open, fresh, phase, doc0>>
 
 Next == Build \/ StartEdit \/ StartCurated \/ Edit
